@@ -210,7 +210,9 @@ class Gen:
             for f in fields:
                 # an attrs field converter that is the identity: semantically invisible, but the hook generators
                 # take the `attrib.converter is not None` paths of find_structure_handler for it
-                if r.random() < 0.12:
+                if r.random() < 0.12 and not f.get("bare_final"):
+                    # (not on bare `Final` attributes: with a field converter cattrs looks the hook up for `Final` itself,
+                    # finds none and hands the raw value to the converter -- the C20 rule, but not transparent)
                     f["idconv"] = True
         if kind != "td":
             # positional parameters: required before defaulted; kw_only ones may sit anywhere
